@@ -13,13 +13,14 @@ UNITS = {
     'codec_mut': dict(module='units.codec_mut', rlimit=150, timeout=300),
     'codec_imm': dict(module='units.codec_imm', rlimit=150, timeout=300),
     'ser': dict(module='units.ser', rlimit=150, timeout=600),
+    'event': dict(module='units.event', rlimit=200, timeout=900),
     'hash': dict(module='units.hash', rlimit=50, timeout=300),
     'rollback': dict(module='units.rollback', rlimit=50, timeout=300),
 }
 
 PROPS = {
     'C03': dict(
-        units=[('codec_mut', r'(with_capacity|read_push|Version\.|impl Version)')],
+        units=[('codec_mut', r'(with_capacity|read_push|Version\.|impl Version)'), ('event', r'(parse_event__(pre|post|start|item|end)|C03)')],
         kani=[],
     ),
     'C01': dict(
@@ -30,6 +31,14 @@ PROPS = {
     ),
     'C17': dict(
         units=[('ser', r'(raw_size|frame_counts|gecko_codes_size|payload_sizes|PayloadSizes|lemma_|C17|Frame::write|::write$|Frame::len)')],
+        kani=[],
+    ),
+    'C04': dict(
+        units=[('event', r'(parse_event|frame_close|frame_open|last_id|with_capacity|push_null|Data::len|PortData::len|Frame::len|lemma_|C04)')],
+        kani=[],
+    ),
+    'C08': dict(
+        units=[('event', r'(parse_event__other|parse_event__splitter|C08)'), ('codec_mut', r'(read_push)')],
         kani=[],
     ),
     'C09': dict(
